@@ -76,6 +76,7 @@ var registry = map[string]propDef{
 	"C03w": {"other", props.C05wiring},
 	"C03r": {"other", props.C03rewrite},
 	"C12r": {"other", props.C03rewrite},
+	"C12o": {"other", props.C12outputs},
 	"C04r": {"other", props.C02ranges},
 	"C06s": {"other", props.C06prg},
 	"C18p": {"other", props.C18pack},
